@@ -158,29 +158,38 @@ package downloader
 // returned request, or pushed back to the task queue (the headers the peer lacks) — also when no request is returned.
 // The errInvalidChain return (a popped number outside the window) is excluded: it aborts the whole sync and the queue is reset.
 //@ ghost var c18Nooped: int
+// generic index / key (never assigned): see [requeued] below
+//@ ghost var c18AnyK: int
 //@ func (*queue).reserveHeaders props C18
 //@ panics none
 //@ pureparam isNoop
 //@ requires q != nil && p != nil && taskQueue != nil && c18HeaderQueues[taskQueue] && c18WF(q) && c18Bound(q)
 //@ requires count >= 0 && donePool != nil && pendPool != nil
+// (a precondition rather than a hypothesis `old(c18NumbersFit63(q)) ==> …` inside the invariant: a quantifier in an antecedent makes the solvers unstable)
+//@ requires [numbers-fit-int64] c18NumbersFit63(q)
 //@ ghost after delete#1: c18Nooped := c18Nooped + 1
-//@ loop proc invariant [wf] old(c18NumbersFit63(q)) ==> c18WF(q)
+//@ loop proc invariant [wf] c18WF(q)
 //@ loop proc invariant [window-same] off(q.resultCache) == 0
-//@ loop proc invariant [skip-items] off(skip) == 0 && forall k: int :: { skip[k] } 0 <= k && k < len(skip) ==> skip[k] != nil && skip[k].Number != nil
+//@ loop proc invariant [skip-items] off(skip) == 0 && forall k: int :: { skip[k].Number } 0 <= k && k < len(skip) ==> skip[k] != nil && skip[k].Number != nil
 //@ loop proc invariant [popped-accounted] c18PopCount - old(c18PopCount) == (c18Nooped - old(c18Nooped)) + len(send) + len(skip)
 //@ loop proc invariant [no-push-yet] c18PushCount == old(c18PushCount) && c18Pushed == old(c18Pushed) && c18Nooped >= old(c18Nooped)
 //@ loop rangeindex invariant [idx] -1 <= rangeindex && rangeindex < len(skip)
 //@ loop rangeindex invariant [counts-kept] c18PopCount == entry(c18PopCount) && c18Nooped == entry(c18Nooped)
 //@ loop rangeindex invariant [push-count] c18PushCount == old(c18PushCount) + rangeindex + 1
-//@ loop rangeindex invariant [requeued] forall k: int :: { skip[k] } 0 <= k && k <= rangeindex ==> c18Pushed[taskQueue][box(skip[k])]
+// Set-level clause "every lacked header is back in the task queue", stated for the generic index c18AnyK: a ghost variable that is never
+// assigned and unconstrained at entry, so a clause proved for it holds for every index (forall-introduction) — and every obligation
+// below is ground (no quantifier instantiation at the returns, which made them solver-dependent). The prefix is bounded by the push
+// counter rather than the loop index, so that the facts needed at the returns are literal instances.
+//@ loop rangeindex invariant [requeued] 0 <= c18AnyK && c18AnyK < c18PushCount - old(c18PushCount) ==> c18Pushed[taskQueue][box(skip[c18AnyK])]
+//@ assert after call (*Prque).Push: [pushed-now] c18Pushed[taskQueue][a1]
 //@ loop rangeindex decreases len(skip) - rangeindex
 // (return anchors are numbered in translation order: #1 is the errInvalidChain return, #2/#3 the two returns behind the requeue loop)
 //@ assert before return#2: [lacked-push-count] c18PushCount == old(c18PushCount) + len(skip)
-//@ assert before return#2: [lacked-headers-requeued] forall k: int :: { skip[k] } 0 <= k && k < len(skip) ==> c18Pushed[taskQueue][box(skip[k])]
+//@ assert before return#2: [lacked-headers-requeued] 0 <= c18AnyK && c18AnyK < len(skip) ==> c18Pushed[taskQueue][box(skip[c18AnyK])]
 //@ assert before return#3: [lacked-push-count] c18PushCount == old(c18PushCount) + len(skip)
-//@ assert before return#3: [lacked-headers-requeued] forall k: int :: { skip[k] } 0 <= k && k < len(skip) ==> c18Pushed[taskQueue][box(skip[k])]
+//@ assert before return#3: [lacked-headers-requeued] 0 <= c18AnyK && c18AnyK < len(skip) ==> c18Pushed[taskQueue][box(skip[c18AnyK])]
 //@ modifies all, c18Pushed, c18PushCount, c18PopCount, c18Nooped
-//@ ensures [wf] old(c18NumbersFit63(q)) ==> c18WF(q)
+//@ ensures [wf] c18WF(q)
 //@ ensures [window-same] q.resultCache == old(q.resultCache) && q.resultOffset == old(q.resultOffset)
 //@ ensures [popped-conserved] result2 == nil ==> c18PopCount - old(c18PopCount) ==
 //@     (c18Nooped - old(c18Nooped)) + (if result0 != nil then len(result0.Headers) else 0) + (c18PushCount - old(c18PushCount))
@@ -262,6 +271,10 @@ package downloader
 //@ let request = pendPool[id]
 //@ ghost after call dynamic:you/downloader.reconstruct: c18Verified := c18Verified + (if ret == nil then 1 else 0)
 //@ ghost after store Pending#1: c18Decremented := c18Decremented + 1
+// A peer is marked as lacking the requested items only when its response delivered NOTHING: a peer that truncates its responses must not be
+// barred from the items that did not fit (they are re-queued: [rest-requeued], [one-push-each]) — "the full range completes as long as
+// some peer eventually answers honestly".
+//@ assert before call (*peerConnection).MarkLacking: [lacking-only-for-empty-response] results == 0
 //@ assert before call dynamic:you/downloader.reconstruct: [index-below-results] 0 <= a1 && a1 < results
 //@ assert before call dynamic:you/downloader.reconstruct: [slot-of-header] a2 != nil && a2.Header != nil && big(a2.Header.Number) == q.resultOffset + index && 0 <= index && index < len(q.resultCache) && a2 == q.resultCache[index]
 //@ assert before call dynamic:you/downloader.reconstruct: [slot-by-number] old(c18NumbersFit63(q)) ==> big(a0.Number) == q.resultOffset + index && big(a2.Header.Number) == big(a0.Number)
@@ -316,19 +329,26 @@ package downloader
 
 // expire: nothing is lost — every request that was pending is afterwards either still pending (unchanged) or all its headers are
 // back in the task queue. (Which requests expire depends on the wall clock and is not decided.)
+// Stated for the generic peer id c18AnyId and the generic header index c18AnyK (ghost variables that are never assigned and are
+// unconstrained at entry: a clause proved for them holds for every id and every index — forall-introduction). This keeps the
+// [nothing-lost] obligations ground; the quantified form needed nested instantiations that only one solver configuration found.
 //@ effectfree time.Since
-//@ spec func c18Requeued(r: *fetchRequest, tq: *prque.Prque) bool = forall k: int :: { r.Headers[k] } 0 <= k && k < len(r.Headers) ==> c18Pushed[tq][box(r.Headers[k])]
+//@ ghost var c18AnyId: string
 //@ func (*queue).expire props C18
 //@ panics none
 //@ requires q != nil && taskQueue != nil && pendPool != nil
 //@ requires forall id: string :: { mapdom(pendPool)[id] } in(id, pendPool) ==> c18ReqOK(pendPool[id]) && (c18HeaderQueues[taskQueue] ==> pendPool[id].From == 0)
+// the generic request, whether it was pending, whether the generic index addresses one of its headers, and that header as a queue item (entry state)
+//@ let anyReq = pendPool[c18AnyId]
+//@ let anyIn = in(c18AnyId, pendPool)
+//@ let anyInRange = 0 <= c18AnyK && c18AnyK < len(pendPool[c18AnyId].Headers)
+//@ let anyItem = box(pendPool[c18AnyId].Headers[c18AnyK])
 //@ loop #1 invariant [reqs-ok] forall id: string :: { mapdom(pendPool)[id] } in(id, pendPool) ==> old(in(id, pendPool)) && pendPool[id] == old(pendPool[id])
-//@ loop #1 invariant [nothing-lost] forall id: string :: { old(mapdom(pendPool)[id]) } old(in(id, pendPool)) ==> in(id, pendPool) || c18Requeued(old(pendPool[id]), taskQueue)
-//@ loop #1 invariant [pushed-monotone] forall x: int :: { c18Pushed[taskQueue][x] } entry(c18Pushed)[taskQueue][x] ==> c18Pushed[taskQueue][x]
-//@ loop #2 invariant [idx] -1 <= rangeindex && rangeindex < len(request.Headers) || (rangeindex == -1 && len(request.Headers) == 0)
-//@ loop #2 invariant [requeued] forall k: int :: { request.Headers[k] } 0 <= k && k <= rangeindex ==> c18Pushed[taskQueue][box(request.Headers[k])]
-//@ loop #2 invariant [pushed-monotone] forall x: int :: { c18Pushed[taskQueue][x] } entry(c18Pushed)[taskQueue][x] ==> c18Pushed[taskQueue][x]
+//@ loop #1 invariant [nothing-lost] anyIn && anyInRange ==> in(c18AnyId, pendPool) || c18Pushed[taskQueue][anyItem]
+//@ loop #2 invariant [idx] -1 <= rangeindex && rangeindex < len(request.Headers)
+//@ loop #2 invariant [requeued] 0 <= c18AnyK && c18AnyK <= rangeindex ==> c18Pushed[taskQueue][box(request.Headers[c18AnyK])]
+//@ loop #2 invariant [nothing-lost] anyIn && anyInRange ==> in(c18AnyId, pendPool) || c18Pushed[taskQueue][anyItem]
 //@ loop #2 decreases len(request.Headers) - rangeindex
 //@ modifies all, c18Pushed, c18PushCount
-//@ ensures [nothing-lost] forall id: string :: { old(mapdom(pendPool)[id]) } old(in(id, pendPool)) ==> in(id, pendPool) || c18Requeued(old(pendPool[id]), taskQueue)
+//@ ensures [nothing-lost] anyIn && anyInRange ==> in(c18AnyId, pendPool) || c18Pushed[taskQueue][anyItem]
 //@ ensures [pending-unchanged] forall id: string :: { mapdom(pendPool)[id] } in(id, pendPool) ==> old(in(id, pendPool)) && pendPool[id] == old(pendPool[id])
